@@ -70,6 +70,8 @@ def run(ctx):
         cl.append(' %d H%d' % (1990 + len(cl) % 30, len(cl)))
         n += len(cl[-1]) + 1
     large.append(head + 'Files: src/*\nCopyright: 1989 first\n' + '\n'.join(cl) + '\nLicense: MIT\n')
+    for n in (499, 500, 501, 1001, 1500):
+        large.append(head + '\n\n'.join('Files: f%d\nCopyright: 2019 h%d\nLicense: L%d\n text %d' % (i, i, i, i) if i % 3 else 'License: L%d\n text of %d' % (i, i) for i in range(n)) + '\n')
     fails += ctx.prop('prop:render-fixpoint:large', large, p_fixpoint)
 
     def p_types(x):
@@ -82,7 +84,7 @@ def run(ctx):
             return 'a document of %d characters with paragraphs %r is read as %r and, rendered, as %r' % (len(text), want, got, got2)
         return None
     H, F, L = 'CopyrightHeaderParagraph', 'CopyrightFilesParagraph', 'CopyrightLicenseParagraph'
-    fails += [(f[0][0][:3000], f[1]) for f in ctx.prop('prop:render-fixpoint:large:paragraph-types', [(large[-3], [H, F, L]), (large[-2], [H, F, F]), (large[-1], [H, F])], p_types)]
+    fails += [(f[0][0][:3000], f[1]) for f in ctx.prop('prop:render-fixpoint:large:paragraph-types', [(large[-8], [H, F, L]), (large[-7], [H, F, F]), (large[-6], [H, F])] + [(t, [H] + [F if i % 3 else L for i in range(n)]) for t, n in zip(large[-5:], (499, 500, 501, 1001, 1500))], p_types)]
     fails += ctx.prop('prop:observing-changes-nothing', texts[:ctx.n(700, 8000)], _copy.p_observe)
     bad = ctx.compare('corr:copyright', [('copyright_from_text', [t]) for t in texts], _copy.impl)
     second = []
